@@ -1,0 +1,61 @@
+//go:build verif
+
+package media
+
+import (
+	"sync/atomic"
+	"time"
+)
+
+// Verification hooks (build tag verif): named schedule points at which a test
+// harness may run a competing operation, and access to the idle-close decision
+// with a caller-supplied period. Without an installed callback they do nothing.
+
+var verifSched atomic.Value // func(name string, obj interface{})
+
+// VerifSetSched installs (or, with nil, removes) the schedule-point callback.
+func VerifSetSched(f func(name string, obj interface{})) {
+	if f == nil {
+		f = func(string, interface{}) {}
+	}
+	verifSched.Store(f)
+}
+
+func verifPoint(name string, obj interface{}) {
+	if f, ok := verifSched.Load().(func(string, interface{})); ok {
+		f(name, obj)
+	}
+}
+
+// VerifIdleCloseTick runs one idle-close decision for s, exactly as the
+// periodic task would, with period d. It reports whether the task considers
+// itself finished (stream closed).
+func VerifIdleCloseTick(s *Stream, d time.Duration, closedStatus int32) bool {
+	r := &runZeroConsumersClose{s: s, d: d, closedStats: closedStatus}
+	r.run()
+	return r.closed
+}
+
+// VerifStatus returns the stream status word.
+func VerifStatus(s *Stream) int32 { return atomic.LoadInt32(&s.status) }
+
+// VerifConsumptionCID returns the consumer id when obj (as passed to a schedule
+// point) is a consumption.
+func VerifConsumptionCID(obj interface{}) (CID, bool) {
+	if c, ok := obj.(*consumption); ok {
+		return c.cid, true
+	}
+	return 0, false
+}
+
+// VerifQueueLen returns the backlog of the consumer with the given id.
+func VerifQueueLen(s *Stream, cid CID) int {
+	cs := &s.consumptions
+	if cid.Type() == FLVPacket {
+		cs = &s.flvConsumptions
+	}
+	if c, ok := cs.Load(cid); ok {
+		return c.(*consumption).recvQueue.Len()
+	}
+	return -1
+}
